@@ -89,6 +89,49 @@ def run(ctx):
     r2.note("`?` propagation sites on io::Result in the print path: %d" % n)
     r2.floor("io-propagation-sites", n)
 
+    # ---------------------------------------------------------------- R-NO-BUFFER
+    r3 = ctx.rule("R-NO-BUFFER", "the print path does not interpose a buffering writer whose pending bytes are flushed "
+                                 "(and whose flush error is discarded) in Drop")
+    nb = 0
+    for crate in (lexpr, serde):
+        for fn in crate.fns:
+            if not common.in_file(fn, "lexpr/src/print.rs", "lexpr/src/value/mod.rs", "serde-lexpr/src/ser.rs"):
+                continue
+            made = []
+            flushed = False
+            for bi, t in fn.calls():
+                p_ = t["callee"].get("path", "")
+                if p_.startswith("std::io::BufWriter::<W>::") and p_.rsplit("::", 1)[1] in ("new", "with_capacity") or \
+                        p_.startswith("std::io::LineWriter::<W>::") and p_.rsplit("::", 1)[1] in ("new", "with_capacity"):
+                    made.append((bi, t))
+                names = facts.callee_names(t)
+                if "std::io::Write::flush" in names or p_.endswith("BufWriter::<W>::into_inner") or p_.endswith("into_parts"):
+                    flushed = True
+            for bi, t in made:
+                nb += 1
+                if flushed:
+                    r3.ok("%s::%s buffers the sink and flushes it explicitly" % (crate.name, fn.path), fn, t.get("line"))
+                else:
+                    r3.violation("%s::%s" % (crate.name, fn.path), "buffered-sink-not-flushed",
+                                 "%s wraps the sink in a buffering writer and never flushes it: the bytes still pending "
+                                 "at return are written in Drop, where a write error is silently discarded, so a failing "
+                                 "sink makes the print call report success" % fn.path, fn.loc(t.get("line")))
+    # drops of buffering writers anywhere on the print path (constructed elsewhere) are equally lossy
+    for crate in (lexpr, serde):
+        for fn in crate.fns:
+            if not common.in_file(fn, "lexpr/src/print.rs", "serde-lexpr/src/ser.rs"):
+                continue
+            for b in fn.blocks:
+                t = b["term"]
+                if t["k"] == "drop" and not b.get("cleanup") and ("std::io::BufWriter<" in t["ty"] or "std::io::LineWriter<" in t["ty"]):
+                    flushed = any("std::io::Write::flush" in facts.callee_names(t2) or
+                                  t2["callee"].get("path", "").endswith("into_inner") for _, t2 in fn.calls())
+                    if not flushed:
+                        r3.violation("%s::%s" % (crate.name, fn.path), "buffered-sink-dropped",
+                                     "%s drops a %s without flushing it first" % (fn.path, t["ty"]), fn.loc(t.get("line")))
+    if nb == 0:
+        r3.ok("no buffering writer is interposed anywhere on the print path")
+
     # ---------------------------------------------------------------- R-FMT-AGREE
     fmt_agree(ctx, lexpr)
     if ctx.tier == "thorough":
